@@ -512,3 +512,41 @@ def self_test():  # noqa: F811
     t = ast.parse(POSITIVE_EXAMPLES['loop_carried_flags']).body[0]
     ok['loop_carried_flags'] = any(not r for *_x, r in loop_carried_flags(t))
     return ok
+
+
+def gen_after_kill(fnode):
+    """[(assign, text)]: liveness-style updates written as (live | uses) - {defined}: the defined symbol is removed AFTER the
+    uses are added, so a statement that uses the symbol it defines (X = X*2) drops it from the tracked set.
+    The correct transfer is (live - {defined}) | uses."""
+    out = []
+    for n in ast.walk(fnode):
+        val = None
+        if isinstance(n, ast.Assign):
+            val = n.value
+        elif isinstance(n, ast.AugAssign) and isinstance(n.op, ast.Sub) and isinstance(n.target, ast.Name):
+            continue
+        if not (isinstance(val, ast.BinOp) and isinstance(val.op, ast.Sub)):
+            continue
+        left, right = val.left, val.right
+        if isinstance(left, ast.BinOp) and isinstance(left.op, ast.BitOr):
+            uses = any(isinstance(a, ast.Attribute) and a.attr in ('free_symbols', 'rhs_symbols') for a in ast.walk(left))
+            defd = any(isinstance(a, ast.Attribute) and a.attr in ('symbol', 'lhs_symbols') for a in ast.walk(right))
+            if uses and defd:
+                out.append((n, unparse(n)))
+    return out
+
+
+POSITIVE_EXAMPLES['gen_after_kill'] = """
+def f(stats, live):
+    for s in reversed(stats):
+        live = (live | s.expression.free_symbols) - {s.symbol}
+    return live
+"""
+_self_test_base3 = self_test
+
+
+def self_test():  # noqa: F811
+    ok = _self_test_base3()
+    t = ast.parse(POSITIVE_EXAMPLES['gen_after_kill']).body[0]
+    ok['gen_after_kill'] = bool(gen_after_kill(t))
+    return ok
